@@ -11,7 +11,8 @@
 //!  * `md`      all documents of ≤ N lines over a vocabulary of Markdown / front-matter lines;
 //!  * `docmut`  every policy document found in the repository: every single-token deletion,
 //!              duplication, adjacent swap, and every byte truncation (at char boundaries);
-//!  * `ladder`  nesting ladders of every depth ≤ D for every nesting construct.
+//!  * `ladder`  nesting ladders of every depth ≤ D for every nesting construct;
+//!  * `wide`    struct / enum types whose number of values is around 2^64, as match scrutinees.
 
 use std::{
     collections::BTreeSet,
@@ -732,6 +733,176 @@ impl Space for LadderSpace {
     }
 }
 
+
+// ---------------------------------------------------------------------------------------------
+// wide types: value-count arithmetic of the match exhaustiveness check around 2^64
+
+/// A type with its definitions, its source spelling, and one literal of it.
+#[derive(Clone)]
+struct WideTy {
+    name: String,
+    defs: String,
+    src: String,
+    lit: String,
+    is_struct: bool,
+}
+
+fn wide_struct(name: &str, fields: &[(String, &WideTy)], extra_defs: &str) -> WideTy {
+    let mut defs = String::from(extra_defs);
+    let mut seen = BTreeSet::new();
+    for (_, t) in fields {
+        if !t.defs.is_empty() && seen.insert(t.name.clone()) {
+            defs.push_str(&t.defs);
+        }
+    }
+    defs.push_str(&format!("struct {name} {{ {} }}\n", fields.iter().map(|(f, t)| format!("{f} {}", t.src)).collect::<Vec<_>>().join(", ")));
+    let lit = format!("{name} {{ {} }}", fields.iter().map(|(f, t)| format!("{f}: {}", t.lit)).collect::<Vec<_>>().join(", "));
+    WideTy { name: name.to_string(), defs, src: format!("struct {name}"), lit, is_struct: true }
+}
+
+fn wide_types() -> Vec<WideTy> {
+    let boolean = WideTy { name: "bool".into(), defs: String::new(), src: "bool".into(), lit: "true".into(), is_struct: false };
+    let int = WideTy { name: "int".into(), defs: String::new(), src: "int".into(), lit: "1".into(), is_struct: false };
+    let enum_of = |name: &str, n: usize| WideTy {
+        name: name.to_string(),
+        defs: format!("enum {name} {{ {} }}\n", (0..n).map(|i| format!("V{i}")).collect::<Vec<_>>().join(", ")),
+        src: format!("enum {name}"),
+        lit: format!("{name}::V0"),
+        is_struct: false,
+    };
+    let n_fields = |k: usize, t: &WideTy| -> Vec<(String, WideTy)> { (0..k).map(|i| (format!("f{i}"), t.clone())).collect() };
+    let mk = |name: &str, fields: Vec<(String, WideTy)>| {
+        let refs: Vec<(String, &WideTy)> = fields.iter().map(|(f, t)| (f.clone(), t)).collect();
+        wide_struct(name, &refs, "")
+    };
+    let mut out = Vec::new();
+    // k bool fields: 2^k values
+    for k in [1usize, 2, 8, 31, 32, 33, 62, 63, 64, 65, 128] {
+        out.push(mk(&format!("B{k}"), n_fields(k, &boolean)));
+    }
+    // k fields of a 4-valued enum: 4^k (2^64 at k = 32); 3-valued: 3^40 < 2^64 < 3^41
+    let q4 = enum_of("Q4", 4);
+    for k in [16usize, 31, 32, 33, 64] {
+        out.push(mk(&format!("E4x{k}"), n_fields(k, &q4)));
+    }
+    let q3 = enum_of("Q3", 3);
+    for k in [40usize, 41] {
+        out.push(mk(&format!("E3x{k}"), n_fields(k, &q3)));
+    }
+    // 256-valued enum: 8 fields = 2^64
+    let q256 = enum_of("Q256", 256);
+    out.push(q256.clone());
+    out.push(enum_of("Q1000", 1000));
+    for k in [7usize, 8, 9] {
+        out.push(mk(&format!("E256x{k}"), n_fields(k, &q256)));
+    }
+    // nested: j fields of an 8-bool struct (2^(8j)); three levels
+    let b8 = mk("Bb8", n_fields(8, &boolean));
+    for j in [7usize, 8, 9, 16] {
+        out.push(mk(&format!("N{j}x8"), n_fields(j, &b8)));
+    }
+    let n8 = mk("Nn8x8", n_fields(8, &b8));
+    out.push(mk("L3", vec![("a".into(), n8.clone()), ("b".into(), boolean.clone())]));
+    out.push(mk("L3x2", vec![("a".into(), n8.clone()), ("b".into(), n8)]));
+    // mixed: 63 bools and a 3-valued field (3·2^63 overflows), 64 bools and an unbounded field
+    let mut f = n_fields(63, &boolean);
+    f.push(("o".into(), WideTy { name: "ob".into(), defs: String::new(), src: "option[bool]".into(), lit: "None".into(), is_struct: false }));
+    out.push(mk("M63o", f));
+    let mut f = n_fields(64, &boolean);
+    f.push(("n".into(), int.clone()));
+    out.push(mk("M64int", f));
+    let mut f = vec![("n".to_string(), int)];
+    f.extend(n_fields(64, &boolean));
+    out.push(mk("Mint64", f));
+    out
+}
+
+pub struct WideSpace {
+    types: Vec<WideTy>,
+}
+
+const WIDE_WRAPPERS: [&str; 6] = ["T", "option[T]", "result[T, bool]", "result[bool, T]", "option[option[T]]", "result[option[T], T]"];
+const WIDE_USES: [&str; 6] = ["match-stmt", "match-expr", "match-stmt-default", "match-expr-binding-arms", "composition", "field-insertion"];
+
+impl WideSpace {
+    fn text_of(&self, u: u64, c: u64) -> Option<(String, String)> {
+        let t = &self.types[u as usize];
+        let w = (c as usize) / WIDE_USES.len();
+        let usage = (c as usize) % WIDE_USES.len();
+        if w >= WIDE_WRAPPERS.len() {
+            return None;
+        }
+        let ty = WIDE_WRAPPERS[w].replace('T', &t.src);
+        // the arm that leaves the wide side uncovered, and arms that cover everything by binding
+        let (open_arm, bound_arms): (String, Vec<String>) = match w {
+            0 => (t.lit.clone(), vec![t.lit.clone()]),
+            1 => ("None".into(), vec!["None".into(), "Some(v)".into()]),
+            2 => ("Err(e)".into(), vec!["Err(e)".into(), "Ok(v)".into()]),
+            3 => ("Ok(v)".into(), vec!["Ok(v)".into(), "Err(e)".into()]),
+            4 => ("None".into(), vec!["None".into(), "Some(v)".into()]),
+            _ => ("Ok(None)".into(), vec!["Ok(v)".into(), "Err(e)".into()]),
+        };
+        let body = match usage {
+            0 => format!("function f(p {ty}) int {{\n match p {{\n {open_arm} => {{ return 1 }}\n }}\n return 0\n}}\n"),
+            1 => format!("function f(p {ty}) int {{\n let r = match p {{\n {open_arm} => 1\n }}\n return r\n}}\n"),
+            2 => format!("function f(p {ty}) int {{\n match p {{\n {open_arm} => {{ return 1 }}\n _ => {{ return 2 }}\n }}\n}}\n"),
+            3 => format!("function f(p {ty}) int {{\n let r = match p {{\n {}\n }}\n return r\n}}\n", bound_arms.iter().map(|a| format!("{a} => 1")).collect::<Vec<_>>().join("\n ")),
+            4 => {
+                if !t.is_struct || w != 0 {
+                    return None;
+                }
+                // struct composition into a wider struct, then an open match on the result
+                format!(
+                    "struct X {{ +{n}, extra bool }}\nfunction f(p {ty}) int {{\n let x = X {{ extra: true, ...p }}\n let o = Some(x)\n match o {{\n None => {{ return 1 }}\n }}\n return 0\n}}\n",
+                    n = t.name
+                )
+            }
+            _ => {
+                if !t.is_struct || w != 0 {
+                    return None;
+                }
+                format!("struct X {{ +{n}, extra bool }}\nstruct Y {{ +X, more option[bool] }}\nfunction f(p option[struct Y]) int {{\n match p {{\n None => {{ return 1 }}\n }}\n return 0\n}}\n", n = t.name)
+            }
+        };
+        Some((format!("{}{}", t.defs, body), format!("type {} as {} in {}", t.name, WIDE_WRAPPERS[w], WIDE_USES[usage])))
+    }
+}
+
+impl Space for WideSpace {
+    fn name(&self) -> &str {
+        "wide"
+    }
+    fn units(&self) -> u64 {
+        self.types.len() as u64
+    }
+    fn run_unit(&self, u: u64, only: Option<u64>, skip: &BTreeSet<u64>, acc: &mut Acc) {
+        let mut accepted = BTreeSet::new();
+        for c in 0..(WIDE_WRAPPERS.len() * WIDE_USES.len()) as u64 {
+            if only.is_some_and(|o| o != c) || skip.contains(&c) {
+                continue;
+            }
+            let Some((text, what)) = self.text_of(u, c) else { continue };
+            // the generator must only produce syntactically valid programs (checked separately so
+            // that a compile panic is not mistaken for a parse failure)
+            CUR_CASE.store(c, Ordering::Relaxed);
+            stage(1);
+            match mcx::catch(|| parse_policy_str(&text, Version::V2).is_ok()) {
+                Ok(false) => {
+                    acc.count("wide_programs_not_parsing", 1);
+                    acc.note("wide-type program does not parse (harness generator)", || what.clone());
+                }
+                _ => acc.count("wide_programs_parsed", 1),
+            }
+            run_text("wide", u, c, Entry::Str, &text, false, acc, &mut accepted, &|| json!({"wide": what}));
+        }
+        acc.count("distinct_nontrivial", accepted.len() as u64);
+    }
+    fn describe_fatal(&self, u: u64, c: u64, aux: u64, how: &str) -> (String, String, J) {
+        let what = self.text_of(u, c).map(|t| t.1).unwrap_or_default();
+        (format!("{} killed the process ({how})", stage_name(aux)), format!("[wide] process killed by {how} during {} of {what}", stage_name(aux)), json!({"wide": what}))
+    }
+}
+
 // ---------------------------------------------------------------------------------------------
 
 pub fn space_by_name(name: &str, args: &Args) -> Box<dyn Space> {
@@ -747,12 +918,13 @@ pub fn space_by_name(name: &str, args: &Args) -> Box<dyn Space> {
         "tok-type" => Box::new(TokSpace::new("tok-type", Entry::Str, T_TYPE, V_TYPE, if t { 5 } else { 4 })),
         "md" => Box::new(MdSpace::new(if t { 5 } else { 4 }, if t { 5 } else { 4 })),
         "docmut" => Box::new(DocMutSpace::new(t)),
+        "wide" => Box::new(WideSpace { types: wide_types() }),
         "ladder" => Box::new(LadderSpace { shapes: shapes(), max_depth: if t { 200 } else { 64 }, case_cap_s: if t { 8 } else { 2 } }),
         n => mcx::machinery_error(&format!("C27: unknown space {n}")),
     }
 }
 
-pub const SPACES: [&str; 11] = ["tok-expr", "tok-expr-fn", "tok-stmt-fn", "tok-stmt-action", "tok-stmt-policy", "tok-stmt-finish", "tok-top", "tok-type", "md", "docmut", "ladder"];
+pub const SPACES: [&str; 12] = ["wide", "tok-expr", "tok-expr-fn", "tok-stmt-fn", "tok-stmt-action", "tok-stmt-policy", "tok-stmt-finish", "tok-top", "tok-type", "md", "docmut", "ladder"];
 
 pub fn run(args: &Args) {
     if let Some(name) = args.extra.get("child") {
@@ -783,7 +955,7 @@ pub fn run(args: &Args) {
     rep.set(
         "rule",
         format!(
-            "token strings (joined by single spaces) of every length ≤L over per-context vocabularies: bare expression L={} ({} tokens, parse_expression; each string that parses is also compiled inside a function), top level L={} ({} tokens), expression / statement-in-function / -action / -policy / -finish templates L={} ({} / {} tokens), type position L={} ({} tokens); Markdown documents of ≤{} lines over {} line kinds (with and without trailing newline; quick: 4-line documents only with); every policy document under crates/ (*.md with front matter, *.policy): unmodified, every token deleted / duplicated / swapped with its successor, every byte truncation (quick: documents >3000 bytes get every token deletion, duplication/swap of every 4th token and truncation at line starts); {} nesting shapes at every depth 1..={} on an {} MiB main-thread stack. Every AST returned by the parser is compiled (debug on/off; documents also with the real FFI schemas and stub_ffi). non-trivial = distinct texts accepted by the grammar (reached the AST builder / compiler)",
+            "token strings (joined by single spaces) of every length ≤L over per-context vocabularies: bare expression L={} ({} tokens, parse_expression; each string that parses is also compiled inside a function), top level L={} ({} tokens), expression / statement-in-function / -action / -policy / -finish templates L={} ({} / {} tokens), type position L={} ({} tokens); Markdown documents of ≤{} lines over {} line kinds (with and without trailing newline; quick: 4-line documents only with); every policy document under crates/ (*.md with front matter, *.policy): unmodified, every token deleted / duplicated / swapped with its successor, every byte truncation (quick: documents >3000 bytes get every token deletion, duplication/swap of every 4th token and truncation at line starts); {} nesting shapes at every depth 1..={} on an {} MiB main-thread stack; wide types (structs of k bool / enum fields for k around the 2^64 value-count boundary, nested 8×8, 256- and 1000-variant enums, mixed with unbounded fields) × 6 option/result wrappers × match statement / expression without default, with default, with binding arms, struct composition and field insertion. Every AST returned by the parser is compiled (debug on/off; documents also with the real FFI schemas and stub_ffi). non-trivial = distinct texts accepted by the grammar (reached the AST builder / compiler)",
             if t { 5 } else { 4 },
             V_EXPR.len(),
             if t { 5 } else { 4 },
@@ -804,7 +976,10 @@ pub fn run(args: &Args) {
     if !exhaustive {
         rep.set("cap_hit", "a shard hit the child-restart cap or a child timed out");
     }
-    for c in ["evaluations", "parsed_ok", "compiled_ok", "documents_parsing_unmodified", "ladder_shapes"] {
+    if rep.counter("wide_programs_not_parsing") > 0 {
+        mcx::machinery_error("C27: the wide-type generator produced programs that do not parse (see observations)");
+    }
+    for c in ["evaluations", "parsed_ok", "compiled_ok", "documents_parsing_unmodified", "ladder_shapes", "wide_programs_parsed"] {
         rep.require_nonzero(c);
     }
     rep.assume("a panic is an unwind caught by catch_unwind or a fatal signal of the child process (stack exhaustion on an 8 MiB main-thread stack included)");
